@@ -12,6 +12,13 @@ def _p(corpora, level='model_checking', rule='', assumptions=None):
 
 
 PROPS = {
+    'C04': _p(lambda t: ['contract', 'reject', 'finish'],
+              rule='a case is a (state-building prefix, probe call) history enumerated by TLC from MCMuxide (scenarios contract/reject/finish); non-trivial when some call is rejected or >= 2 calls are accepted'),
+    'C05': _p(lambda t: ['reject'],
+              rule='a case is a history pair (H, H minus its rejected calls), both executed and compared; non-trivial when H contains a rejected call followed by an accepted call or a finish'),
+    'C06': _p(lambda t: ['finish', 'av', 'contract'],
+              rule='a case is a history with >= 1 finish attempt and >= 1 other call'),
+
     'C01': _p(lambda t: ['av'],
               rule='a case is a (configuration, call sequence) pair enumerated by TLC from MCMuxide (scenario av) or drawn by the seeded generator; distinct by input hash; non-trivial when some track holds >= 2 accepted samples'),
     'C03': _p(lambda t: ['av'],
